@@ -24,9 +24,28 @@ func (r *yieldRewriter) ignoreKeyVal(k, v ast.Expr) (bool, bool) {
 }
 
 func (r *yieldRewriter) rewriteRanges(block *ast.BlockStmt) {
-	astutil.Apply(block, nil, func(c *astutil.Cursor) bool {
+	// range loops of plain func lits nested in the yield func can't contain a yield, they are kept as they are:
+	// the iterator declared in front of a rewritten loop mustn't be jumped over by a goto, which is legal there
+	plainFuncLits := 0
+	isPlainFuncLit := func(n ast.Node) bool {
+		lit, _ := n.(*ast.FuncLit)
+		return lit != nil && !r.rewriter.yieldFuncLits[lit]
+	}
+	astutil.Apply(block, func(c *astutil.Cursor) bool {
+		if isPlainFuncLit(c.Node()) {
+			plainFuncLits++
+		}
+		return true
+	}, func(c *astutil.Cursor) bool {
+		if isPlainFuncLit(c.Node()) {
+			plainFuncLits--
+			return true
+		}
 		switch n := c.Node().(type) {
 		case *ast.RangeStmt:
+			if plainFuncLits > 0 {
+				return true
+			}
 			if _, labelled := c.Parent().(*ast.LabeledStmt); labelled {
 				// the iterator declaration can't be inserted before a labelled statement;
 				// labels only survive inside plain func lits / trival stmts, where native range is fine
@@ -101,7 +120,7 @@ func (r *yieldRewriter) rewriteRanges(block *ast.BlockStmt) {
 			case *types.Chan:
 				do(cstNewChanIter, n.X)
 			case *types.Signature:
-				panic("implement me: range func")
+				// range over func is kept as it is, a yield in its body is rejected by the yield rewriter
 			}
 		}
 		return true
